@@ -207,6 +207,8 @@ struct World {
     /// websocket upgrades that completed (101 relayed)
     upgrades: u64,
     compared: bool,
+    /// a peer of ours could not even connect (port range exhausted...): no verdict
+    murky: Option<String>,
     log_path: String,
 }
 
@@ -347,6 +349,7 @@ impl World {
             reached_backend: 0,
             upgrades: 0,
             compared: false,
+            murky: None,
             log_path,
         };
         world.warm_up()?;
@@ -1535,6 +1538,10 @@ impl World {
                 Err(_) => clients.push(None),
             }
         }
+        let unconnected = clients.iter().filter(|c| c.is_none()).count();
+        if unconnected > 0 {
+            self.murky.get_or_insert(format!("storm: {unconnected} of {n} clients could not connect"));
+        }
         // phase 1: who is being served at the same time?
         let mut held: Vec<(usize, RawConn)> = vec![];
         let t0 = Instant::now();
@@ -1655,7 +1662,11 @@ impl World {
                     if c.is_some() {
                         retries += 1;
                     }
-                    c = RawConn::connect(addr).ok().map(|mut c| {
+                    let r = RawConn::connect(addr);
+                    if r.is_err() {
+                        self.murky.get_or_insert("storm: a fresh client could not connect".into());
+                    }
+                    c = r.ok().map(|mut c| {
                         let _ = c.write_all(&rb, T_IO);
                         c
                     });
@@ -1713,7 +1724,11 @@ impl World {
                     if f.2.is_some() {
                         retries += 1;
                     }
-                    f.2 = RawConn::connect(addr).ok().map(|mut c| {
+                    let r = RawConn::connect(addr);
+                    if r.is_err() {
+                        self.murky.get_or_insert("storm: a fresh client could not connect".into());
+                    }
+                    f.2 = r.ok().map(|mut c| {
                         let _ = c.write_all(&f.1, T_IO);
                         c
                     });
@@ -1953,8 +1968,9 @@ impl World {
             }
         }
         self.h_end("warm", "close");
-        if self.t_open("warmt") != "relayed" {
-            return Err("warm-up TCP".into());
+        let o = self.t_open("warmt");
+        if o != "relayed" {
+            return Err(format!("warm-up TCP: {o}"));
         }
         self.t_end("warmt", "close-client");
         if self.cfg.tls {
@@ -2077,6 +2093,29 @@ struct CaseRun {
     tags: Vec<String>,
     nontrivial: bool,
     secs: f64,
+    /// the case could not be judged (rig / set-up / warm-up trouble, harness panic)
+    inconclusive: Option<String>,
+}
+
+/// Outcomes of a warm-up that a descheduled harness or an exhausted port range
+/// can produce on a healthy worker (1 s timeouts): never evidence by themselves.
+fn timing_suspect(e: &str) -> bool {
+    if e.contains("is not idle") {
+        // 8 s of waiting with 1 s timeouts: not a matter of scheduling
+        return false;
+    }
+    ["504", "closed", "timeout", "connect-failed", "write-failed", "no-response", "handshake-failed", "no metrics", "no-echo"]
+        .iter()
+        .any(|w| e.contains(w))
+}
+
+/// what kind of warm-up failure (two equal kinds in a row on fresh workers = reproducible)
+fn warm_up_kind(e: &str) -> String {
+    if e.contains("is not idle") {
+        "not-idle".into()
+    } else {
+        e.to_string()
+    }
 }
 
 fn op_bytes(op: &str, i: usize) -> Vec<u8> {
@@ -2097,32 +2136,43 @@ fn run_case_inner(ops: &[String]) -> CaseRun {
             return run;
         }
     };
+    // Set-up policy: a failure of the rig, a listener, a backend or the warm-up
+    // is tried again on a fresh worker (up to 4 workers). Only a warm-up failure
+    // of the worker's own making, seen on two fresh workers in a row (never
+    // idle, a 429 on the very first request...), is a verdict; everything else
+    // makes the case inconclusive (counted, not a failure).
     let mut world = None;
-    let mut err = String::new();
-    for _ in 0..3 {
+    let mut errs: Vec<String> = vec![];
+    for _ in 0..4 {
         match World::start(cfg.clone()) {
             Ok(w) => {
                 world = Some(w);
                 break;
             }
             Err(e) => {
-                // a worker that never becomes idle is deterministic; anything else
-                // (a 504 because this harness was descheduled for a second on the
-                // shared machine) is tried again on a fresh worker
-                let stuck = e.contains("is not idle");
-                err = e;
-                if stuck {
-                    break;
+                errs.push(e);
+                let n = errs.len();
+                if n >= 2 {
+                    let (x, y) = (&errs[n - 2], &errs[n - 1]);
+                    if x.starts_with("warm-up")
+                        && y.starts_with("warm-up")
+                        && !timing_suspect(x)
+                        && !timing_suspect(y)
+                        && warm_up_kind(x) == warm_up_kind(y)
+                    {
+                        run.oracle.push(("warm-up-failed".into(), format!("on two fresh workers in a row: {y}")));
+                        run.secs = t0.elapsed().as_secs_f64();
+                        return run;
+                    }
                 }
-                std::thread::sleep(Duration::from_millis(200));
+                std::thread::sleep(Duration::from_millis(300));
             }
         }
     }
     let Some(mut w) = world else {
-        // a warm-up that fails is the worker misbehaving on the very first
-        // sessions (each was retried on a fresh worker), not a rig problem
-        let class = if err.starts_with("warm-up") { "warm-up-failed" } else { "harness-setup-failed" };
-        run.oracle.push((class.into(), err));
+        run.inconclusive = Some(format!("set-up failed on 4 workers: {}", errs.join(" | ")));
+        run.tags.push("inconclusive:set-up".into());
+        run.secs = t0.elapsed().as_secs_f64();
         return run;
     };
     w.out.push(format!("{} -> started", ops[0]));
@@ -2135,6 +2185,9 @@ fn run_case_inner(ops: &[String]) -> CaseRun {
             let word = o.split(|c| c == ',' || c == ':').next().unwrap_or("").to_string();
             w.tags.push(format!("{kind} => {word}"));
         }
+        if o.contains("connect-failed") {
+            w.murky.get_or_insert(format!("{op}: {o}"));
+        }
         w.out.push(format!("{op} -> {o}"));
         if w.w.exit_state().is_some() {
             break;
@@ -2145,18 +2198,27 @@ fn run_case_inner(ops: &[String]) -> CaseRun {
     w.watchdog("after the case");
     if w.w.exit_state().is_none() && !w.oracle.iter().any(|(c, _)| c == "worker-dead-or-wedged") {
         let p = w.slot_probe();
+        if p.contains("connect-failed") {
+            w.murky.get_or_insert(p.clone());
+        }
         w.out.push(format!("slot-probe -> {p}"));
         let f2 = w.footprint("after-probe");
         w.out.push(format!("footprint -> {f2}"));
         w.watchdog("after the slot probe");
     }
     w.close_all();
-    let rep = w.w.stop();
+    let rep = w.w.stop_within(Duration::from_secs(10));
     if rep.outcome != StopOutcome::Clean && !w.oracle.iter().any(|(c, _)| c == "worker-dead-or-wedged") {
         w.alarm("worker-dead-or-wedged", format!("stop: {:?}", rep.outcome));
     }
     let _ = std::fs::remove_file(&w.log_path);
-    run.nontrivial = w.reached_backend > 0 && w.compared;
+    if let Some(why) = w.murky.take() {
+        // our own peers could not connect: whatever was observed proves nothing
+        let dropped: Vec<String> = w.oracle.drain(..).map(|(c, _)| c).collect();
+        run.inconclusive = Some(format!("{why} (alarms not judged: {dropped:?})"));
+        w.tags.push("inconclusive:connect".into());
+    }
+    run.nontrivial = w.reached_backend > 0 && w.compared && run.inconclusive.is_none();
     run.out = std::mem::take(&mut w.out);
     run.oracle = std::mem::take(&mut w.oracle);
     run.tags = std::mem::take(&mut w.tags);
@@ -2174,8 +2236,8 @@ fn run_case(ops: &[String]) -> CaseRun {
                 .or_else(|| e.downcast_ref::<String>().cloned())
                 .unwrap_or_else(|| "panic".into());
             CaseRun {
-                oracle: vec![("harness-panic".into(), msg)],
-                tags: vec!["harness-panic".into()],
+                inconclusive: Some(format!("harness panic: {msg}")),
+                tags: vec!["inconclusive:harness-panic".into()],
                 ..Default::default()
             }
         }
@@ -2562,6 +2624,28 @@ fn shrink(ops: &[String], class: &str, budget_s: f64) -> (Vec<String>, CaseRun) 
 }
 
 fn main() {
+    // whatever happens, a result file exists
+    let args0 = parse_args();
+    if let Err(e) = catch_unwind(AssertUnwindSafe(real_main)) {
+        let msg = e
+            .downcast_ref::<&str>()
+            .map(|s| s.to_string())
+            .or_else(|| e.downcast_ref::<String>().cloned())
+            .unwrap_or_else(|| "panic".into());
+        let res = json!({"area": "footprint", "property": args0.prop, "tier": args0.tier, "seed": args0.seed,
+            "evaluations": 0, "distinct_nontrivial": 0, "rule": RULE, "samples": [],
+            "traces_validated_against_impl": 0, "disagreements_checked": 0, "distribution": {},
+            "failures": [{"kind": "oracle", "class": "harness-inconclusive", "detail": format!("harness panic outside a case: {msg}"),
+                          "case": -1, "ops": [], "impl_out": [], "model_out": []}], "wall_s": 0.0});
+        if !args0.out.is_empty() {
+            let _ = std::fs::write(&args0.out, serde_json::to_string_pretty(&res).unwrap_or_default());
+        }
+        println!("FAIL oracle harness-inconclusive harness panic outside a case: {msg}");
+        std::process::exit(1);
+    }
+}
+
+fn real_main() {
     let args = parse_args();
     let t0 = Instant::now();
     silence_worker_panics();
@@ -2585,6 +2669,9 @@ fn main() {
             for (c, d) in &r.oracle {
                 println!("FAIL oracle {c} {d}");
             }
+            if let Some(why) = &r.inconclusive {
+                println!("INCONCLUSIVE {why}");
+            }
             if !r.oracle.is_empty() {
                 bad += 1;
             }
@@ -2602,10 +2689,19 @@ fn main() {
             println!("footprint: replay file is not a footprint case, nothing to do");
             return;
         }
-        let run = run_case(&ops);
+        let mut run = run_case(&ops);
+        for _ in 0..2 {
+            if run.inconclusive.is_none() {
+                break;
+            }
+            run = run_case(&ops);
+        }
         let fails = judge_fail(&ops, &run, -1);
         write_out(&json!({"area": "footprint", "property": args.prop, "replay": path,
-                          "evaluations": 1, "failures": fails}));
+                          "evaluations": 1, "failures": fails, "inconclusive": run.inconclusive}));
+        if let Some(why) = &run.inconclusive {
+            println!("INCONCLUSIVE {why}");
+        }
         for l in &run.out {
             println!("{l}");
         }
@@ -2647,7 +2743,13 @@ fn main() {
 
     // the witness of the candidate finding is replayed on every run
     let wit_ops = reenable_witness();
-    let wit = run_case(&wit_ops);
+    let mut wit = run_case(&wit_ops);
+    for _ in 0..2 {
+        if wit.inconclusive.is_none() {
+            break;
+        }
+        wit = run_case(&wit_ops);
+    }
     let wit_class = "per-ip-limit-exceeded-after-reenable";
     let reproduced = wit.oracle.iter().any(|(c, _)| c == wit_class);
 
@@ -2657,6 +2759,8 @@ fn main() {
     let mut failures: Vec<Value> = vec![];
     let mut per_class: BTreeMap<String, usize> = BTreeMap::new();
     let mut validated = 0u64;
+    let mut inconclusive = 0u64;
+    let mut inconclusive_samples: Vec<Value> = vec![];
     let mut shrink_budget: f64 = if thorough { 150.0 } else { 45.0 };
     let mut slowest = 0f64;
     for (idx, ops) in cases.iter().enumerate() {
@@ -2677,6 +2781,13 @@ fn main() {
         }
         if samples.len() < 3 && run.nontrivial && case_no >= 0 {
             samples.push(json!({"case": case_no, "ops": ops, "impl_out": run.out}));
+        }
+        if let Some(why) = &run.inconclusive {
+            inconclusive += 1;
+            if inconclusive_samples.len() < 3 {
+                inconclusive_samples.push(json!({"case": case_no, "why": why}));
+            }
+            continue;
         }
         if run.oracle.is_empty() {
             validated += 1;
@@ -2716,8 +2827,10 @@ fn main() {
         }
     }
     let mut known_witnesses = vec![];
-    known_witnesses.push(json!({"class": wit_class, "reproduced": reproduced, "ops": wit_ops, "impl_out": wit.out,
-        "detail": wit.oracle.iter().find(|(c, _)| c == wit_class).map(|(_, d)| d.clone()).unwrap_or_default()}));
+    if wit.inconclusive.is_none() {
+        known_witnesses.push(json!({"class": wit_class, "reproduced": reproduced, "ops": wit_ops, "impl_out": wit.out,
+            "detail": wit.oracle.iter().find(|(c, _)| c == wit_class).map(|(_, d)| d.clone()).unwrap_or_default()}));
+    }
     if reproduced {
         // reported through `failures` too so that it is a VIOLATION until the
         // lead has recorded it in known_findings.json
@@ -2726,6 +2839,15 @@ fn main() {
             "case": -100, "ops": wit_ops, "impl_out": wit.out, "model_out": []}));
     }
     let evaluations = cases.len() as u64 + 1;
+    if wit.inconclusive.is_some() {
+        inconclusive += 1;
+    }
+    // too many cases without a verdict: the run itself proves nothing
+    if inconclusive * 100 > evaluations * 5 {
+        failures.push(json!({"kind": "oracle", "class": "harness-inconclusive",
+            "detail": format!("{inconclusive} of {evaluations} cases could not be judged (rig set-up / warm-up trouble or harness panic), e.g. {}", serde_json::to_string(&inconclusive_samples).unwrap_or_default()),
+            "case": -1, "ops": [], "impl_out": [], "model_out": []}));
+    }
     let res = json!({
         "area": "footprint",
         "property": args.prop,
@@ -2740,7 +2862,7 @@ fn main() {
         "distribution": dist,
         "failures": failures,
         "known_witnesses": known_witnesses,
-        "extra": {"threads": threads, "slowest_case_s": slowest, "note": "no Lean model in this run: traces_validated = cases on which every oracle of the reference monitor / baseline comparison held"},
+        "extra": {"threads": threads, "slowest_case_s": slowest, "inconclusive": inconclusive, "inconclusive_samples": inconclusive_samples, "note": "no Lean model in this run: traces_validated = cases on which every oracle of the reference monitor / baseline comparison held"},
         "wall_s": t0.elapsed().as_secs_f64(),
     });
     write_out(&res);
@@ -2754,9 +2876,10 @@ fn main() {
         }
     }
     println!(
-        "footprint: {} cases, {} clean, {} distinct non-trivial, {} failure(s), {:.1} s (slowest case {:.1} s)",
+        "footprint: {} cases, {} clean, {} inconclusive, {} distinct non-trivial, {} failure(s), {:.1} s (slowest case {:.1} s)",
         evaluations,
         validated,
+        inconclusive,
         distinct.len(),
         failures.len(),
         t0.elapsed().as_secs_f64(),
